@@ -3,6 +3,7 @@ import Amgcl.Proofs.RelaxScaleIlup
 import Amgcl.Proofs.RelaxScaleIluk
 import Amgcl.Properties.C06
 import Amgcl.Proofs.EnergySymIlu
+import Amgcl.Proofs.EnergySymCheb
 import Amgcl.Proofs.EnergyExample
 import Mathlib.Tactic.IntervalCases
 /-!
@@ -42,9 +43,10 @@ instance for ILU(0) hierarchies.  **Hierarchy-level scaling**: `ilu0_apply_scale
 again an ILU hierarchy (its sweep matrices are those of the factors the constructor computes on `scale A_l c`) and
 `B(cA) = c⁻¹ B(A)`.
 
-**Open**: the smoothing inequality `Contr A (1 − N A)` for these smoothers; the sweep MATRIX of the Chebyshev recurrence
-(hence its symmetry — `N = q(A)`, resp. `q(D⁻¹A)·D⁻¹`, is symmetric for symmetric `A` — and a hierarchy-level statement for
-Chebyshev; only the sweep-level `cheb_sweep_scale` is proved); symmetry for ILU(k) / ILUP; `Bridge.Realizes` for the
+**Open**: the smoothing inequality `Contr A (1 − N A)` for these smoothers; the sweep MATRIX of the Chebyshev array model
+(`cheb_symmetric_partial` proves that the recurrence written on matrices keeps symmetry, with and without `relax.scale`; its
+identification with `chebSolve` and a hierarchy-level statement for Chebyshev are missing; the sweep-level `cheb_sweep_scale`
+is proved); symmetry for ILU(k) / ILUP; `Bridge.Realizes` for the
 hierarchies the model `Amg.build` constructs with these smoothers (the statements here are about `Hier` with the sweep
 matrices `iluN` of the model factors).
 -/
@@ -459,5 +461,35 @@ example : ((Hier.relax (matOf exS 3 3) (iluN (3/4 : ℚ) exSF 3) (iluN (3/4) exS
     (by simp only [Hier.SymStruct]; exact hAs) hl).1
 
 end symcycle
+
+/-! ## Chebyshev: what holds for symmetry (matrix recurrence only) -/
+section chebsym
+open Matrix Amgcl.Energy
+
+/-- **`cheb_symmetric_partial`.**  FULL STATEMENT: for symmetric `A` the sweep matrix `N` of the model `chebSolve` (degree `d`,
+ellipse of the constructor, with or without `relax.scale`) is symmetric, so `post = pre†` and `cycle_symmetric_struct`
+applies.  PROVED: the recurrence of `solve` written on matrices (`chebMatStep`: `R = Dm(1 − A X)`, `P' = αR + βP`,
+`X' = X + P'`, `Dm` = inverted diagonal of `relax.scale`, `1` otherwise) keeps `X` symmetric for EVERY coefficient sequence
+`(α_k, β_k)`, every symmetric `A` and symmetric `Dm` — with scaling too: `X = q(Dm A)·Dm` is a sum of palindromic products.
+MISSING: the identification of `vecOf (chebSolve s A f 0 p r).1` with `X_d *ᵥ vecOf f` for the coefficients `chebCoef`
+(the array model is jointly linear and scratch independent by C06, its matrix is not extracted). -/
+theorem cheb_symmetric_partial {K : Type} [Field K] {n : Type} [Fintype n] [DecidableEq n] (A Dm : Matrix n n K)
+    (hA : Aᵀ = A) (hD : Dmᵀ = Dm) (coef : List (K × K)) :
+    ((coef.foldl (chebMatStep A Dm) (0, 0)).1)ᵀ = (coef.foldl (chebMatStep A Dm) (0, 0)).1 := by
+  have key : ∀ (l : List (K × K)) (XP : Matrix n n K × Matrix n n K), ChebSymInv A Dm XP.1 XP.2 →
+      ChebSymInv A Dm (l.foldl (chebMatStep A Dm) XP).1 (l.foldl (chebMatStep A Dm) XP).2 := by
+    intro l
+    induction l with
+    | nil => intro XP h; exact h
+    | cons ab t ih => intro XP h; exact ih _ (chebMatStep_inv A Dm hA hD XP.1 XP.2 h ab)
+  exact (key coef (0, 0) ⟨by simp, by simp, by simp, by simp⟩).x
+
+-- degree 3, diagonal scaling `Dm = diag(1/2, 1/3)`
+example : (([((1 : ℚ)/3, 0), (1/5, 1/7), (2/9, 1/11)].foldl
+      (chebMatStep Example.A2 (Matrix.diagonal ![1/2, 1/3])) (0, 0)).1)ᵀ
+    = ([((1 : ℚ)/3, 0), (1/5, 1/7), (2/9, 1/11)].foldl (chebMatStep Example.A2 (Matrix.diagonal ![1/2, 1/3])) (0, 0)).1 :=
+  cheb_symmetric_partial Example.A2 _ Example.spd_A2.1 (Matrix.diagonal_transpose _) _
+
+end chebsym
 
 end Amgcl.C02e
